@@ -208,26 +208,32 @@ def run(chk):
     chk.ob("trunc-bound", "_fixed_m_trunc", t is not None and any(x.startswith("self.max_dims[") for x in t) and "len(sigma)" in t, fx.where, t or unparse(rets[0]),
            "min(self.max_dims[bond], len(sigma))", line=fx.node.lineno, detail="the fixed criterion must not exceed the per-bond maximum nor the number of singular values")
     cm = cc.methods["compute_m_trunc"]
-    both = None
-    fixed = None
-    thr = None
-    for n in ast.walk(cm.node):
-        if isinstance(n, ast.If) and "CompressCriteria." in unparse(n.test):
-            which = unparse(n.test).split("CompressCriteria.")[1].strip()
-            val = [s.value for s in n.body if isinstance(s, ast.Assign) and unparse(s.targets[0]) == "trunc"]
-            if which.startswith("both") and val:
-                both = val[0]
-            if which.startswith("fixed") and val:
-                fixed = val[0]
-            if which.startswith("threshold") and val:
-                thr = val[0]
-    if both is None or fixed is None or thr is None:
-        raise AnalysisError("compute_m_trunc: criteria dispatch not recognised")
-    tb = bound_terms(both)
-    chk.ob("trunc-bound", "compute_m_trunc[both]", tb is not None and any("_threshold_m_trunc" in x for x in tb) and any("_fixed_m_trunc" in x for x in tb), cm.where,
-           tb or unparse(both), "min(threshold count, fixed count)", line=cm.node.lineno, detail="`both` must take the smaller of the two criteria (max would ignore the bond limit)")
-    chk.ob("trunc-bound", "compute_m_trunc[fixed]", "_fixed_m_trunc" in unparse(fixed), cm.where, unparse(fixed), "self._fixed_m_trunc(sigma, idx, left)")
-    chk.ob("trunc-bound", "compute_m_trunc[threshold]", "_threshold_m_trunc" in unparse(thr), cm.where, unparse(thr), "self._threshold_m_trunc(sigma)")
+    # abstract run of the dispatch for every criterion: the result is a min over a set of bounds (MinSet); unknown criteria must be rejected
+    from ..syminterp import SymInterp, Sym
+
+    class MinSet:
+        def __init__(self, items):
+            self.items = frozenset(items)
+
+        def __repr__(self):
+            return "min(" + ", ".join(sorted(self.items)) + ")"
+
+    def smin(*a):
+        out = set()
+        for x in (a[0] if len(a) == 1 and isinstance(a[0], (list, tuple)) else a):
+            out |= x.items if isinstance(x, MinSet) else {repr(x)}
+        return MinSet(out)
+    crit = Sym("CompressCriteria", threshold="<threshold>", fixed="<fixed>", both="<both>")
+    need = {"threshold": {"THR"}, "fixed": {"FIX"}, "both": {"THR", "FIX"}}
+    for name, req in need.items():
+        me = Sym("config", criteria=getattr(crit, name), _threshold_m_trunc=lambda sigma: MinSet({"THR"}), _fixed_m_trunc=lambda sigma, idx, left: MinSet({"FIX"}))
+        it = SymInterp(src, None, {"CompressCriteria": crit, "min": smin, "len": lambda x: MinSet({"LEN"})})
+        res = it.call_function(cm, [me, "sigma", "idx", "left"])
+        got = res.items if isinstance(res, MinSet) else {repr(res)}
+        ok = req <= got and got <= {"THR", "FIX", "LEN"} and (name != "threshold" or "FIX" not in got) and (name != "fixed" or "THR" not in got)
+        chk.ob("trunc-bound", f"compute_m_trunc[{name}]", ok, cm.where, repr(res), "min over " + " and ".join(sorted(req)) + " (len(sigma) may be added)", line=cm.node.lineno,
+               detail=f"criterion `{name}`: the kept count must be bounded by " + " and ".join({"THR": "the threshold count", "FIX": "the per-bond limit"}[x] for x in sorted(req)) +
+                      "; a missing bound lets the bond dimension exceed the configured limit (or ignores the threshold)")
     els = [s for s in ast.walk(cm.node) if isinstance(s, ast.Assert) and unparse(s.test) == "False"]
     chk.ob("trunc-bound", "compute_m_trunc: unknown criteria rejected", len(els) == 1, cm.where, len(els), 1)
     # explicit path clamps: every function with a temp_m_trunc / m parameter path ends in min(m_trunc, len(s))
